@@ -198,7 +198,7 @@ def _integrate_over(expr: ast.AST, generators: Sequence[ast.comprehension]) -> a
         else:
             raise NotImplementedError(f"Cannot parse iterator: {comprehension.iter}")
 
-    sym_expr = sym_expr.doit()
+    sym_expr = sympy.sympify(sym_expr).doit()  # A sum over no values is the plain number 0
     sym_expr = sympy.simplify(sym_expr)
 
     return core.parse(str(sym_expr))
